@@ -161,7 +161,9 @@ class History:
             prot = list(ep.configuration.ike_configurations.values())[0].protect[0]
             sport = args[1] if len(args) > 1 else 0
             idx = args[2] if len(args) > 2 else prot.index
-            ev = ep.acquire_event(idx, str(me), str(peer), sport=sport, dport=prot.peer_ts.get_port(), proto=int(prot.my_ts.ip_proto))
+            dport = args[3] if len(args) > 3 else prot.peer_ts.get_port()
+            proto = args[4] if len(args) > 4 else int(prot.my_ts.ip_proto)
+            ev = ep.acquire_event(idx, str(me), str(peer), sport=sport, dport=dport, proto=proto)
             ep.step(event=ev)
         elif kind == 'expire':
             ep = w.A if args[0] == 'A' else w.B
@@ -378,6 +380,22 @@ def o_emitted_valid_at_peer(h):
         sa = next((x for x in cands if bytes(x.my_spi) == spi and x.peer_crypto is not None and int(x.state) != 21), None)
         if sa is None:
             continue
+        # the checksum, recomputed with nothing of the implementation but the negotiated algorithm and key: HMAC over everything before it
+        try:
+            import hmac as _hmac
+            integ = next((t for t in sa.chosen_proposal.transforms if int(t.type) == 3), None)
+            spec = {2: ('sha1', 12), 12: ('sha256', 16), 14: ('sha512', 32)}.get(int(integ.id)) if integ is not None else None
+        except Exception:  # noqa
+            spec = None
+        if spec is not None:
+            name, n = spec
+            want = _hmac.new(bytes(sa.peer_crypto.sk_a), data[:-n], name).digest()[:n]
+            if want != data[-n:]:
+                out.append(('emitted-message-checksum-not-the-negotiated-mac:exch%d' % data[18],
+                            '%s emitted a %s of exchange type %d (ID %d) whose last %d octets are not HMAC-%s under the integrity key of its '
+                            'direction over all octets before them' % (d.sender, 'response' if data[19] & 0x20 else 'request', data[18],
+                                                                       int.from_bytes(data[20:24], 'big'), n, name.upper())))
+                continue
         w.use_side = True
         try:
             M.Message.parse(data, header_only=False, crypto=sa.peer_crypto)
